@@ -2,6 +2,8 @@ package props
 
 import (
 	"fmt"
+	"go/types"
+	"reflect"
 	"strings"
 
 	"golang.org/x/tools/go/ssa"
@@ -83,6 +85,29 @@ func runC08(r *Run) {
 			"ok(encoder.DecodeString($0))",
 			"ok(json.Unmarshal(encoder.DecodeString($0), ?req))",
 			"cmp(encoder.EncodeToString(canonicalizer.MarshalCanonical(_)) == $0)")
+	}
+	// the initial state has exactly the members suffixData and delta: any other
+	// member of the type it is decoded into would survive the re-encoding
+	// comparison, so it must be established empty on every success path
+	if f := r.fn(P, pkgParser, "parseInitialState"); f != nil {
+		if T := r.P.Named(pkgModel, "CreateRequest"); T != nil {
+			st, _ := T.Underlying().(*types.Struct)
+			succ := r.succ(f, core.Ctx{})
+			n := 0
+			for i := 0; st != nil && i < st.NumFields(); i++ {
+				fld := st.Field(i)
+				tag := reflectTagName(st.Tag(i))
+				if tag == "-" || tag == "suffixData" || tag == "delta" {
+					continue
+				}
+				n++
+				empty := core.HasFact(succ.Facts, `cmp(_.`+fld.Name()+` == "")`) || core.HasFact(succ.Facts, `cmp(_.`+fld.Name()+` == nil)`)
+				r.R.Check(empty && succ.HasSuccess, P+".suffix.initial.members."+fld.Name(), "E5 field coverage + E2: every member of the type the initial state is decoded into, other than suffixData and delta, is established empty on success", core.FuncName(f), r.where(f),
+					"a member the decoded type knows round-trips through the canonical re-encoding, so an initial state altered by adding it still resolves: several long-form DID strings for one DID",
+					fmt.Sprintf("member %q established empty", tag), fmt.Sprintf("member %q (field %s) is not established empty on success", tag, fld.Name()))
+			}
+			r.R.SetCount("members of the initial-state type besides suffixData/delta", n)
+		}
 	}
 	if f := r.fn(P, pkgParser, "Parser.ParseCreateOperation"); f != nil {
 		for _, batch := range []bool{true, false} {
@@ -251,4 +276,13 @@ func (r *Run) checkCanonOnly(P string) {
 		}
 	}
 	r.R.Check(len(stray) == 0, P+".canon.only.stray", "who-may-call: SHA-2 constructors are used only through hashing.GetHash", "crypto/sha256, crypto/sha512", "-", why, "no direct SHA-2 use outside hashing.GetHash", strings.Join(stray, "; "))
+}
+
+// reflectTagName returns the JSON member name of a struct tag ("" if none).
+func reflectTagName(tag string) string {
+	v := reflect.StructTag(tag).Get("json")
+	if i := strings.Index(v, ","); i >= 0 {
+		v = v[:i]
+	}
+	return v
 }
